@@ -1,4 +1,5 @@
 use crate::core::Prop;
+pub mod c01;
 pub mod c02;
 pub mod c03;
 pub mod c04;
@@ -8,5 +9,5 @@ pub mod c07;
 pub mod c08;
 
 pub fn all() -> Vec<Prop> {
-    vec![c02::prop(), c03::prop(), c04::prop(), c05::prop(), c06::prop(), c07::prop(), c08::prop()]
+    vec![c01::prop(), c02::prop(), c03::prop(), c04::prop(), c05::prop(), c06::prop(), c07::prop(), c08::prop()]
 }
